@@ -25,7 +25,7 @@ func signingFees(run *sim.Run) {
 			NMembers: nm, Threshold: uint64(r.Range(1, nm)), MaxDESize: 6,
 			SigningPeriod: uint64(r.Range(1, 4)), MaxAttempts: uint64(r.Range(1, 3)), FeePerSigner: fee,
 			Blocks: 90, PSubmit: sim.Pick(r, []int{50, 80, 100}), LazyMembers: r.Intn(2),
-			ReqPerBlockPct: 70, PoorRequester: int64(sim.Pick(r, []int{0, 5, 25, 2000})),
+			ReqPerBlockPct: 70, PoorRequester: int64(sim.Pick(r, []int{0, 5, 25, 2000})), FeeChanges: i%2 == 0,
 		}
 	}, func(h *tssworld.Hist) []tssworld.Monitor {
 		return []tssworld.Monitor{tssworld.NewFeeMonitor(h)}
